@@ -28,6 +28,7 @@ import Pandora.Spec.C20
 import Pandora.Proofs.C20Conc
 import Pandora.Proofs.C20Scen
 import Pandora.Proofs.C20Feed
+import Pandora.Proofs.C20R4
 import Pandora.Bridge.C20
 
 namespace Pandora.Props.C20
@@ -530,5 +531,185 @@ example : effClients true 0 = 1 ∧ effClients true (-3) = 1 ∧ effClients true
 /-- non-vacuity of the assertion clause of `C20_scenario_step`: a step demanding status 200 whose reply is 403 -/
 example : assertFails { exGood with assert := 200 } 403 = true ∧ assertFails { exGood with assert := 200 } 200 = false ∧
     assertFails exGood 403 = false := by decide
+
+/-! ### round 4: the scenario provider's passes / limit, unlimited passes of grpc/json, the reflection endpoint for every
+way of writing the target, the preprocessor's index forms -/
+
+open Pandora.Proofs.C20R4 in
+/-- **C20_scenario_provider**: the generic scenario provider (`components/providers/scenario/provider.go` `Run`) over a
+list of `len > 0` ammo, for every `passes`, every `limit` (0 = not configured) and every number `asked` of ammo the
+instances ask for: it delivers ammo number `i mod len` of the list for `i = 0, 1, …` — every scenario of the weighted
+list in turn, pass after pass — exactly `min asked (passes × len cut at limit)` of them (all `asked` when neither is
+configured). -/
+theorem C20_scenario_provider (len passes limit asked : Nat) (hl : 0 < len) :
+    scenRun len passes limit asked 0 =
+      (List.range (match scenAvail len passes limit with | none => asked | some b => min asked b)).map (· % len) := by
+  rw [scenRun_spec len passes limit hl asked 0, List.range_eq_range']
+  unfold scenLeft
+  cases scenAvail len passes limit <;> simp
+
+example : scenRun 3 2 0 10 0 = [0, 1, 2, 0, 1, 2] ∧ scenRun 3 2 4 10 0 = [0, 1, 2, 0] ∧ scenRun 3 0 0 4 0 = [0, 1, 2, 0] ∧
+    scenAvail 3 2 4 = some 4 ∧ scenAvail 3 0 0 = none := by decide
+
+open Pandora.Proofs.C20Feed Pandora.Proofs.C20R4 in
+/-- **C20_feed_unlimited**: the grpc/json provider with UNLIMITED passes (`passes: 0`, or `passes` not written: the
+default) and a limit, for every file: the sink receives the per-line ammo of the file's lines, pass after pass, up to
+the first line that stops the provider, cut at the limit (part 1: `limit + 1` passes are always enough); and when no
+line stops the provider and the file delivers anything at all, that is exactly `limit` ammo — the first `limit` of the
+endless repetition of the file's own ammo, whatever number `k ≥ limit` of passes one unrolls (part 2). -/
+theorem C20_feed_unlimited (cfg : ProvCfg) (raws : List Raw) (hp : cfg.passes = 0) (hl : cfg.limit ≠ 0) :
+    (feed cfg raws).1 =
+      ((((List.replicate (cfg.limit + 1) raws).flatten).takeWhile (rawOk cfg)).filterMap (itemOf cfg)).take cfg.limit ∧
+    (raws.all (rawOk cfg) = true → raws.filterMap (itemOf cfg) ≠ [] →
+      (feed cfg raws).1.length = cfg.limit ∧
+      ∀ k, cfg.limit ≤ k → (feed cfg raws).1 = (passesItems cfg raws k).take cfg.limit) := by
+  have hf : feedFuel cfg = cfg.limit + 1 := by simp [feedFuel, hp]
+  have h := runPasses_unlimited_spec cfg raws hp (cfg.limit + 1) 0 zeroEntry 0
+  have h1 : (feed cfg raws).1 = (items cfg (passesRaws raws (cfg.limit + 1))).take cfg.limit := by
+    unfold feed
+    rw [hf, h]
+    simp [takeRem, hl]
+  refine ⟨by rw [h1]; rfl, ?_⟩
+  intro hok hne
+  rw [h1, items_passesRaws_all cfg raws hok]
+  have hk := passesItems_take cfg raws cfg.limit (cfg.limit + 1) (by omega) hne
+  refine ⟨?_, ?_⟩
+  · rw [List.length_take, passesItems_length]
+    have hpos : 0 < (raws.filterMap (itemOf cfg)).length := by
+      cases hh : raws.filterMap (itemOf cfg) with
+      | nil => exact absurd hh hne
+      | cons _ _ => simp
+    have : cfg.limit + 1 ≤ (cfg.limit + 1) * (raws.filterMap (itemOf cfg)).length := Nat.le_mul_of_pos_right _ hpos
+    omega
+  · intro k hkl
+    rw [hk, passesItems_take cfg raws cfg.limit k hkl hne]
+
+example : ((feed { passes := 0, limit := 5, chosen := [], coe := true } exRaws).1.map (·.tag)) = ["a", "", "b", "a", ""] ∧
+    exRaws.all (rawOk { passes := 0, limit := 5, chosen := [], coe := true }) = true ∧
+    exRaws.filterMap (itemOf { passes := 0, limit := 5, chosen := [], coe := true }) ≠ [] := by decide
+
+open Pandora.Proofs.C20R4 in
+/-- **C20_weights**: the divisor `SpreadNames` divides the scenario weights by. For EVERY list of two or more weights the
+Go code's `GCDM` — `GCD(GCDM(all but the last), GCD(last two))` with Euclid's loop `GCD` — is the greatest common
+divisor of ALL of them (what `Model.ammoList` divides by): not of the last two, not of all but one. So every scenario
+enters the ammo list `weight / gcd` times, whatever the number of scenarios. Fewer than two weights: `GCDM` returns 0
+and `SpreadNames` does not use it (a single scenario enters once). The bodies of `GCD`, `GCDM`, `SpreadNames` are
+regenerated: `GCD` as Lean functions (`Bridge.C20.gcdLoop_step_eq`, `gcdLoop_base_eq`: `goGcdLoop` IS the source's loop), `GCDM` and
+`SpreadNames` canonically (`gcdmBody_eq`, `spreadNamesBody_eq`, `spreadWeight_eq`, `spreadCount_eq`). -/
+theorem C20_weights (ws : List Nat) (h : 2 ≤ ws.length) :
+    goGcdm ws = ws.foldl Nat.gcd 0 ∧ (∀ w ∈ ws, goGcdm ws ∣ w) ∧ (∀ d, (∀ w ∈ ws, d ∣ w) → d ∣ goGcdm ws) ∧
+    Gen.GrpcGun.gcdmBody = ["$int0 := len($0)", "if $int0 < 2 { return 0 }", "$int640 := GCD($0[$int0-2], $0[$int0-1])",
+      "if $int0 == 2 { return $int640 }", "return GCD(GCDM($0[:$int0-1]...), $int640)"] := by
+  have hfold : ∀ (l : List Nat) (a : Nat), (l.foldl Nat.gcd a ∣ a ∧ ∀ w ∈ l, l.foldl Nat.gcd a ∣ w) ∧
+      ∀ d, d ∣ a → (∀ w ∈ l, d ∣ w) → d ∣ l.foldl Nat.gcd a := by
+    intro l
+    induction l with
+    | nil => intro a; simp
+    | cons x r ih =>
+      intro a
+      obtain ⟨⟨h1, h2⟩, h3⟩ := ih (Nat.gcd a x)
+      refine ⟨⟨?_, ?_⟩, ?_⟩
+      · exact Nat.dvd_trans h1 (Nat.gcd_dvd_left _ _)
+      · intro w hw
+        simp only [List.mem_cons] at hw
+        rcases hw with rfl | hw
+        · exact Nat.dvd_trans h1 (Nat.gcd_dvd_right _ _)
+        · exact h2 w hw
+      · intro d hda hd
+        exact h3 d (Nat.dvd_gcd hda (hd x (by simp))) (fun w hw => hd w (by simp [hw]))
+  rw [goGcdm_eq ws h]
+  exact ⟨rfl, (hfold ws 0).1.2, fun d hd => (hfold ws 0).2 d (Nat.dvd_zero d) hd, Bridge.C20.gcdmBody_eq⟩
+
+example : goGcdm [6, 9, 4] = 1 ∧ goGcdm [6, 4, 8] = 2 ∧ goGcdm [4, 6] = 2 ∧ goGcdm [5] = 0 ∧ goGcd 12 18 = 6 := by decide
+
+open Pandora.Proofs.C20R4 in
+/-- **C20_reflect_port**: where the warm-up looks for the reflection API, for EVERY way of writing the target. With a
+configured `reflect_port` `p ≠ 0`: a target `<pre>:<q>` whose last `:`-separated part `q` is a number (whatever `pre` is:
+`127.0.0.1`, `localhost`, `dns:///127.0.0.1`, `passthrough:///host`, `[::1]` …) gives `<pre>:<p>` — the same host,
+scheme and all, only the port replaced; a target without any `:` and a target whose last part is not a number (`[::1]`,
+`dns:///host`) get `:<p>` appended. (`C20_target` says no call ever goes there; `Bridge.C20.replacePortRows_eq` ties the
+decision list to the source.) -/
+theorem C20_reflect_port (p : Nat) (hp : p ≠ 0) :
+    (∀ (pre q : String), (∀ c ∈ q.toList, c ≠ ':') → parsesInt64 q.toList = true →
+      (replacePort (pre ++ ":" ++ q) p).toList = pre.toList ++ ':' :: (toString p).toList) ∧
+    (∀ (host : String), (∀ c ∈ host.toList, c ≠ ':') → replacePort host p = host ++ ":" ++ toString p) ∧
+    (∀ (pre q : String), (∀ c ∈ q.toList, c ≠ ':') → parsesInt64 q.toList = false →
+      replacePort (pre ++ ":" ++ q) p = (pre ++ ":" ++ q) ++ ":" ++ toString p) := by
+  have hp' : (p == 0) = false := by simpa using hp
+  refine ⟨?_, ?_, ?_⟩
+  · intro pre q hq hnum
+    have hs : (pre ++ ":" ++ q).toList = pre.toList ++ ':' :: q.toList := by simp
+    unfold replacePort
+    simp only [hp', Bool.false_eq_true, if_false, hs, splitColon_append pre.toList q.toList hq]
+    have hne := splitColon_ne_nil [] pre.toList
+    have hlen : ((splitColon [] pre.toList ++ [q.toList]).length == 1) = false := by
+      cases h : splitColon [] pre.toList with
+      | nil => exact absurd h hne
+      | cons x r => simp
+    simp only [hlen, Bool.false_eq_true, if_false, List.getLastD_concat, hnum, Bool.not_true, List.dropLast_concat]
+    rw [String.toList_ofList, joinColon_append _ hne, joinColon_splitColon]
+  · intro host hh
+    unfold replacePort
+    simp [hp', splitColon_noColon host.toList hh]
+  · intro pre q hq hnum
+    have hs : (pre ++ ":" ++ q).toList = pre.toList ++ ':' :: q.toList := by simp
+    unfold replacePort
+    simp only [hp', Bool.false_eq_true, if_false, hs, splitColon_append pre.toList q.toList hq]
+    have hne := splitColon_ne_nil [] pre.toList
+    have hlen : ((splitColon [] pre.toList ++ [q.toList]).length == 1) = false := by
+      cases h : splitColon [] pre.toList with
+      | nil => exact absurd h hne
+      | cons x r => simp
+    simp [hlen, hnum]
+
+/-- non-vacuity: the forms the harness writes the target in (`tf=`) -/
+example : replacePort "dns:///127.0.0.1:1111" 2222 = "dns:///127.0.0.1:2222" ∧
+    replacePort "passthrough:///127.0.0.1:1111" 2222 = "passthrough:///127.0.0.1:2222" ∧
+    replacePort "localhost:1111" 2222 = "localhost:2222" ∧ replacePort "[::1]:1111" 2222 = "[::1]:2222" ∧
+    replacePort "127.0.0.1" 2222 = "127.0.0.1:2222" ∧ replacePort "[::1]" 2222 = "[::1]:2222" ∧
+    parsesInt64 "1111".toList = true ∧ parsesInt64 "1]".toList = false := by decide
+
+/-- **C20_index**: the preprocessor's index forms other than `[next]` (`lib/mp` `calcIndex`): for every non-empty user
+list, `[last]`, a written index (wrapping round the list) and a written negative index (counted from the end, wrapping)
+yield an element OF the list — number `len - 1`, `i mod len`, and `0` or `len - (i mod len)` — and move no iterator: only
+`[next]` draws. In Go's arithmetic (`%` truncates towards zero): `r := -i % len; if r < 0 { r += len }`. -/
+theorem C20_index (c : Cfg) (cd : CallDef) (iters : List (String × Nat)) (hu : c.users ≠ []) (hp : cd.pre = true)
+    (hn : cd.idx ≠ .next) :
+    (drawUser c cd iters).2 = iters ∧
+    fixedIndex c.users.length cd.idx < c.users.length ∧
+    (drawUser c cd iters).1 = some (c.users.getD (fixedIndex c.users.length cd.idx) "") ∧
+    (∀ i, cd.idx = .neg i →
+      (fixedIndex c.users.length cd.idx : Int) =
+        (let r := Int.tmod (-(i : Int)) c.users.length; if r < 0 then r + c.users.length else r)) := by
+  have hlen : 0 < c.users.length := by
+    cases h : c.users with
+    | nil => exact absurd h hu
+    | cons _ _ => simp
+  refine ⟨?_, ?_, ?_, ?_⟩
+  · unfold drawUser; cases h : cd.idx <;> simp_all
+  · cases h : cd.idx with
+    | next => exact absurd h hn
+    | last => simp [fixedIndex]; omega
+    | fixed i => simp [fixedIndex]; exact Nat.mod_lt _ hlen
+    | neg i => simp [fixedIndex]; exact Nat.mod_lt _ hlen
+  · unfold drawUser; cases h : cd.idx <;> simp_all
+  · intro i hi
+    rw [hi]
+    simp only [fixedIndex]
+    have hm : i % c.users.length < c.users.length := Nat.mod_lt _ hlen
+    have ht : Int.tmod (-(i : Int)) (c.users.length : Int) = -((i % c.users.length : Nat) : Int) := by
+      rw [Int.neg_tmod]; congr 1
+    rw [ht]
+    by_cases hz : i % c.users.length = 0
+    · simp [hz]
+    · have : (c.users.length - i % c.users.length) % c.users.length = c.users.length - i % c.users.length :=
+        Nat.mod_eq_of_lt (by omega)
+      rw [this]
+      have hneg : -((i % c.users.length : Nat) : Int) < 0 := by omega
+      simp only [hneg, if_true]
+      omega
+
+example : fixedIndex 3 .last = 2 ∧ fixedIndex 3 (.fixed 7) = 1 ∧ fixedIndex 3 (.neg 1) = 2 ∧ fixedIndex 3 (.neg 3) = 0 ∧
+    fixedIndex 3 (.neg 7) = 2 := by decide
 
 end Pandora.Props.C20
